@@ -13,6 +13,7 @@ import (
 	"github.com/sourcenetwork/corekv"
 	"github.com/sourcenetwork/immutable"
 
+	"github.com/sourcenetwork/defradb/client"
 	"github.com/sourcenetwork/defradb/acp/identity"
 	"github.com/sourcenetwork/defradb/event"
 	coreblock "github.com/sourcenetwork/defradb/internal/core/block"
@@ -118,7 +119,7 @@ type mCommit struct {
 	Incs    map[string]float64 // counter field -> increment
 	Delete  bool
 	Block   []byte
-	Version int // schema version index the writer was on (C19)
+	VerKey string // schema version (key, see e1Run.nodeKnown) the writer was on (C19)
 }
 
 type e1Run struct {
@@ -146,9 +147,13 @@ type e1Run struct {
 	concur    int
 	order     []string
 	// C19
-	versions []string // schema version ids in patch order (node 0's view)
-	nodeVer  []int    // active version index per node
-	nodePat  []int    // patches applied per node
+	// per node: the versions it knows (key: the extra fields of the version in the order they were added,
+	// e.g. "" for the root, "0,1", or "1" for a branch made after switching back), the active one, and
+	// the next extra field the node will add. Patching while an older version is active branches.
+	nodeKnown  []map[string]string // key -> schema version id
+	nodeActive []string
+	nodeNext   []int
+	schemaOps  int
 	// C11
 	secretPats []secretPat
 	secretN    int
@@ -226,14 +231,24 @@ func (r *e1Run) run() {
 		}
 		if i == 0 {
 			r.colID = cols[0].CollectionID
-			r.versions = []string{cols[0].VersionID}
 		} else if cols[0].CollectionID != r.colID {
 			r.res.HarnessErr = "precondition: nodes disagree on collection id"
 			return
 		}
 	}
-	r.nodeVer = make([]int, n)
-	r.nodePat = make([]int, n)
+	r.nodeKnown = make([]map[string]string, n)
+	r.nodeActive = make([]string, n)
+	r.nodeNext = make([]int, n)
+	for i, nd := range r.nodes {
+		r.nodeKnown[i] = map[string]string{}
+		if cs, err := nd.DB.GetCollections(nd.reqCtx(), client.CollectionFetchOptions{}); err == nil {
+			for _, c := range cs {
+				if c.Name() == "User" {
+					r.nodeKnown[i][""] = c.Version().VersionID
+				}
+			}
+		}
+	}
 	r.openSubscriptions()
 	r.installKMS()
 	synctest.Wait()
@@ -519,6 +534,15 @@ func (r *e1Run) pid(home string) string {
 	if r.props[home] {
 		return home
 	}
+	if r.p.Prop == "C19" && r.schemaOps > 0 && (home == "C02" || home == "C01/values") {
+		// a run that has changed the schema: what documents show (values, deleted status, agreement between
+		// nodes on the fields both know) is exactly what C19 is about. (Head sets and commit queries of
+		// nodes on different versions are not: a node cannot resolve a version it was never given.)
+		return "C19"
+	}
+	if home == "C01/values" {
+		home = "C01"
+	}
 	switch home {
 	case "C01", "C02", "C03", "C04":
 		// an oracle of another claimed property: reported under its own id (the
@@ -628,7 +652,7 @@ func (r *e1Run) collectLocal(step, node, slot int, writes map[string]string, inc
 		return r.commits[k]
 	}
 	c := &mCommit{Idx: len(r.commits), Cid: cs, C: docUp.Cid, Doc: slot, Origin: node, Parents: parents,
-		Writes: writes, Incs: incs, Delete: del, Block: docUp.Block, Version: r.nodeVer[node]}
+		Writes: writes, Incs: incs, Delete: del, Block: docUp.Block, VerKey: r.nodeActive[node]}
 	r.commits = append(r.commits, c)
 	r.byCid[cs] = c.Idx
 	// concurrency statistic
@@ -774,6 +798,15 @@ func (r *e1Run) doUpdate(step, node, slot, fsel, vsel int) {
 		avail = []fieldSpec{*fieldByName("name"), *fieldByName("name"), *fieldByName("points")}
 		nf = 1
 	}
+	forced := ""
+	if r.props["C19"] && (vsel>>3)&1 == 1 {
+		// schema plans: half of the updates write the field the active version received last
+		if ex := versionExtras(r.nodeActive[node]); len(ex) > 0 {
+			forced = ex[len(ex)-1].Name
+			avail = append([]fieldSpec{ex[len(ex)-1]}, avail...)
+			fsel = 0
+		}
+	}
 	for k := 0; k < nf; k++ {
 		f := avail[mod(fsel+k*7, len(avail))]
 		if _, dup := lits[f.Name]; dup {
@@ -786,6 +819,9 @@ func (r *e1Run) doUpdate(step, node, slot, fsel, vsel int) {
 			counters++
 		}
 		v := f.Pool[mod(vsel+k*3, len(f.Pool))]
+		if f.Name == forced && k == 0 {
+			v = f.Pool[1+mod(vsel, len(f.Pool)-1)] // not null
+		}
 		if r.p.cfg("narrow", 0) == 1 && !f.Counter {
 			v = f.Pool[2+mod(vsel, 2)] // "a" or "b"
 		}
@@ -1046,11 +1082,11 @@ func (r *e1Run) checkConverged(step int) {
 	}
 	for i := 1; i < n; i++ {
 		if views[i].all != views[0].all {
-			r.res.violate(r.pid("C01"), "diverged-values", "diverged-values/"+r.divergeClass(), step, "showDeleted listing differs: n0=%s n%d=%s", short(views[0].all), i, short(views[i].all))
+			r.res.violate(r.pid("C01/values"), "diverged-values", "diverged-values/"+r.divergeClass(), step, "showDeleted listing differs: n0=%s n%d=%s", short(views[0].all), i, short(views[i].all))
 			return
 		}
 		if views[i].live != views[0].live {
-			r.res.violate(r.pid("C01"), "diverged-live", "", step, "plain listing differs: n0=%s n%d=%s", short(views[0].live), i, short(views[i].live))
+			r.res.violate(r.pid("C01/values"), "diverged-live", "", step, "plain listing differs: n0=%s n%d=%s", short(views[0].live), i, short(views[i].live))
 			return
 		}
 		if r.props["C01"] && views[i].heads != views[0].heads {
